@@ -134,18 +134,20 @@ type poolMsg struct {
 }
 
 type script struct {
-	k       entryKind
-	net     *simnet.Net
-	n       int
-	rng     *rand.Rand
-	best    []*upd // per node: newest update of the entry the node has merged
-	pool    []poolMsg
-	journal []string
-	watch   []*watchLog
-	seq     int
-	lastRm  time.Time
-	removed bool
-	stats   map[string]int
+	k         entryKind
+	net       *simnet.Net
+	n         int
+	rng       *rand.Rand
+	best      []*upd // per node: newest update of the entry the node has merged
+	pool      []poolMsg
+	journal   []string
+	watch     []*watchLog
+	seq       int
+	lastRm    time.Time
+	removed   bool
+	stats     map[string]int
+	viol      checker
+	retention time.Duration
 }
 
 type watchLog struct {
@@ -183,11 +185,19 @@ func (s *script) collect(node int) []poolMsg {
 }
 
 func (s *script) snapshotState(node int) {
-	b := append([]byte(nil), s.net.Nodes[node].KV.LocalState(false)...)
+	// a third of the dumps are taken the way a joining node's exchange takes them (memberlist's join flag)
+	join := s.rng.IntN(3) == 0
+	b := append([]byte(nil), s.net.Nodes[node].KV.LocalState(join)...)
 	pm := poolMsg{bytes: b, full: true, at: time.Now(), from: node}
 	if st, err := simnet.DecodeState(b); err == nil {
 		if present, ts, tomb := s.k.extract(st[s.k.key]); present {
 			pm.u = &upd{ts, tomb}
+		}
+	}
+	// "tombstones are forwarded to peers like any other change": a full state carries the tombstone its node holds
+	if exp := s.best[node]; exp != nil && exp.tomb && s.viol != nil && !(s.retention > 0 && time.Since(s.lastRm) > s.retention-2*time.Second) {
+		if pm.u == nil || !pm.u.tomb || pm.u.ts < exp.ts {
+			s.viol("tombstone-not-in-full-state/"+s.k.name, fmt.Sprintf("the full state of n%d (join flag %v) does not carry the tombstone the node has merged (stamp %d)", node, join, exp.ts), map[string]any{"carried": fmt.Sprintf("%+v", pm.u)})
 		}
 	}
 	s.pool = append(s.pool, pm)
@@ -281,6 +291,7 @@ func runScript(t *testing.T, run *vt.Run, c vt.CaseID, rng *rand.Rand, exhaustiv
 			}
 			run.Violation(c, sig, what, d)
 		}
+		s.viol, s.retention = viol, retention
 		ctx, cancelWatch := context.WithCancel(context.Background())
 		defer cancelWatch()
 		for j := 0; j < n; j++ {
@@ -457,7 +468,7 @@ func runScript(t *testing.T, run *vt.Run, c vt.CaseID, rng *rand.Rand, exhaustiv
 					if a != b {
 						// full-state exchange both ways: both learn each other's newest update
 						ua, ub := s.best[a], s.best[b]
-						net.PushPull(a, b)
+						net.PushPullJoin(a, b, rng.IntN(3) == 0)
 						synctest.Wait()
 						s.merge(a, ub)
 						s.merge(b, ua)
